@@ -219,6 +219,11 @@ def c18_scenarios(tier, seed):
             out.append(scen(i, num_workers=w, probe_socks=max(24, 8 * w), probe_rounds=3, load={"clients": cnum, "requests": 25 if tier == "quick" else 60},
                             batch_size=[64, 4, 1][i % 3], client_stats=(i % 4 == 3)))
             i += 1
+    # stalled bursts: full batches wait for the workers (all of one protocol, and mixed), several in a row
+    for k, (w, b) in enumerate([(1, 64), (2, 64), (1, 7)] if tier == "quick" else [(1, 64), (2, 64), (4, 64), (1, 7), (1, 33), (16, 64)]):
+        out.append(scen(100 + k, num_workers=w, batch_size=b, probe_socks=8, probe_rounds=1,
+                        # (at most 72 datagrams per burst: more could overflow one socket's default receive buffer)
+                        stalled_bursts=[[72, "G"], [72, "I"], [72, "mix"], [40, "I"], [66, "G"]], client_stats=(k % 2 == 1)))
     return out
 
 
